@@ -6,7 +6,7 @@
 From Coq Require Import List NArith ZArith Arith Lia Bool.
 From Tongo Require Import Lib.Bits Lib.Res Model.Address Model.Shard Model.Adnl Model.AddressTlb Model.AddressJson
   Proofs.Crc16P Proofs.Base64P Proofs.AddressP Proofs.AddressRawP Proofs.ShardP Proofs.AdnlP
-  Proofs.AddressTlbP Proofs.ShardP2 Proofs.AddressJsonP.
+  Proofs.AddressTlbP Proofs.ShardP2 Proofs.AddressJsonP Proofs.AddressRawP2.
 Import ListNotations.
 Local Open Scope N_scope.
 
@@ -109,6 +109,25 @@ Theorem C17_parse_account_raw :
   (- 2 ^ 31 <= wc < 2 ^ 31)%Z -> length addr = 32%nat -> bytes_ok addr ->
   parse_account (print_raw wc addr) = Ok (wc, addr).
 Proof. exact parse_account_raw. Qed.
+
+(** short hex: the raw text with its first k hex digits (all '0') left out, for
+    every k = 0..64, i.e. of every total length the raw form admits (the length
+    of the workchain text + 1 + 64 - k: also 48, 55, 64, 66, the lengths of the
+    other textual forms), is zero filled by AccountIDFromRaw and by
+    ParseAccountID alike *)
+Theorem C17_raw_short_roundtrip :
+  forall k wc addr,
+  (- 2 ^ 31 <= wc < 2 ^ 31)%Z -> length addr = 32%nat -> bytes_ok addr -> (k <= 64)%nat ->
+  firstn k (flat_map hex_byte addr) = repeat 48 k ->
+  parse_raw (print_raw_short k wc addr) = Ok (wc, addr) /\
+  parse_account (print_raw_short k wc addr) = Ok (wc, addr).
+Proof. exact raw_short_roundtrip. Qed.
+Print Assumptions C17_raw_short_roundtrip.
+
+Theorem C17_raw_short_length :
+  forall k wc addr, length addr = 32%nat -> (k <= 64)%nat ->
+  length (print_raw_short k wc addr) = (length (dec_Z wc) + 1 + (64 - k))%nat.
+Proof. exact print_raw_short_length. Qed.
 
 (** ** TL form *)
 Theorem C17_tl_roundtrip :
@@ -350,4 +369,11 @@ Example C17_tlb_json_min_workchain :
   let addr := map N.of_nat (seq 1 32) in
   account_from_ma_json (account_to_ma_json (-128) addr) = Ok (Some ((-128)%Z, addr)) /\
   ma_json_parse (account_to_ma_json (-129) addr) = Ok (MAStd None 127 addr).
+Proof. cbv zeta. split; vm_compute; reflexivity. Qed.
+
+(* a raw text that is exactly as long as the user-friendly form (48 characters) *)
+Example C17_raw_of_length_48 :
+  let addr := repeat 0 9 ++ map N.of_nat (seq 1 23) in
+  length (print_raw_short 18 0 addr) = 48%nat /\
+  parse_account (print_raw_short 18 0 addr) = Ok (0%Z, addr).
 Proof. cbv zeta. split; vm_compute; reflexivity. Qed.
